@@ -571,3 +571,16 @@ if _os.path.isdir(_BENIGN_ROOT):
             _m = _json.load(open(_mf))
             for _p in [_m["property"]] + list(_m.get("also_run_under") or []):
                 VARIANTS.append((f"{_p}-benign-{_bid}", _p, "PATCH", f"benign/{_bid}/patch.diff", None, None))
+
+# ---------------------------------------------------------------------------
+# alternative correct repairs written by independent sub-agents (see DESIGN 9.4), kept under /verif/altfix/<id>/: one earlier
+# fix of /repo reverted and the defect repaired another way.  The checks of every property that consults the changed
+# files must stay quiet (UNVERIFIED lines are acceptable)
+_ALT_ROOT = _os.path.join(_os.path.dirname(_SEED_ROOT), "altfix")
+if _os.path.isdir(_ALT_ROOT):
+    for _aid in sorted(_os.listdir(_ALT_ROOT)):
+        _mf = _os.path.join(_ALT_ROOT, _aid, "meta.json")
+        if _os.path.exists(_mf):
+            _m = _json.load(open(_mf))
+            for _p in _m.get("run_under") or []:
+                VARIANTS.append((f"{_p}-altfix-{_aid}", _p, "PATCH", f"altfix/{_aid}/patch.diff", None, None))
